@@ -124,6 +124,138 @@ def compress_result(res, inv):
     return relabel_canon(res, lambda q: inv.get(q, q))
 
 
+def timed_run(c, steps, N):
+    """run the steps on a big register under the size recorder and the time limit -> (result, error kind, seconds, sizes)"""
+    t0 = time.perf_counter()
+    try:
+        with SizeRecorder() as rec, implrun.time_limit(int(TIME_BUDGET) + 20):
+            got = run_steps(c, steps, N)
+        gerr = None
+    except implrun.Timeout:
+        got, gerr = None, "timeout"
+    except MemoryError:
+        got, gerr = None, "memory"
+    except Exception as e:  # noqa: BLE001
+        got, gerr = None, implrun.errkind(e)
+    return got, gerr, time.perf_counter() - t0, rec.sizes
+
+
+def peak_memory(specs, steps, N):
+    """memory: a second run under tracemalloc (slows execution, so not timed)"""
+    big2 = gen.build_circuit(N, 1, specs)
+    tracemalloc.start()
+    try:
+        with implrun.time_limit(300):
+            run_steps(big2, steps, N)
+    except Exception:  # noqa: BLE001
+        pass
+    _, peak = tracemalloc.get_traced_memory()
+    tracemalloc.stop()
+    return peak
+
+
+def check_register(ctx, case, idx, with_memory):
+    """the circuit on the operands idx of a register of N qubits against the same circuit on a register of k qubits;
+    idx and with_memory are drawn in a run and recorded with the case (as "idx", "memory_measured") for the replay"""
+    k, N, specs, steps = case["k"], case["N"], case["specs"], case["steps"]
+    widest = max([len(gen.spec_qubits(s)) for s in specs if gen.is_gate_spec(s)] + [1])
+    m = {i: idx[i] for i in range(k)}
+    inv = {v: kk for kk, v in m.items()}
+    big_specs = relabel_specs(specs, m)
+    ctx.seen(case, widest >= 2)
+    ctx.bump(f"N_{N}")
+    case = {**case, "idx": list(idx), "memory_measured": bool(with_memory)}
+    small = gen.build_circuit(k, 1, specs)
+    big = gen.build_circuit(N, 1, big_specs)
+    try:
+        want = run_steps(small, steps, k)
+        werr = None
+    except Exception as e:  # noqa: BLE001
+        want, werr = None, implrun.errkind(e)
+    got, gerr, dt, sizes = timed_run(big, steps, N)
+    peak = 0
+    if with_memory:
+        peak = peak_memory(big_specs, steps, N)
+        ctx.bump("memory_measured")
+    if gerr in ("timeout", "memory") or dt > TIME_BUDGET or peak > MEM_BUDGET:
+        ctx.oracle_fail("cost", case, f"time {dt:.1f}s / peak memory {peak/1e6:.0f} MB on a register of {N} qubits ({gerr})", None)
+        return
+    if sizes and max(sizes) > max(widest, 2) + (0 if steps[0][0] != "eq" else widest):
+        ctx.oracle_fail("cost", case, f"a matrix on {max(sizes)} qubits was built; the widest gate has {widest} operands", None)
+        return
+    if gerr != werr:
+        ctx.oracle_fail("cost", case, f"big register: {gerr}, small register: {werr}", None)
+        return
+    if gerr is None:
+        a = compress_result(got, inv)
+        if steps[0][0] in ("write", "v1", "parse"):
+            import re
+
+            a2 = re.sub(r"qubit\[\d+\]|qubits \d+", "", a) if isinstance(a, str) else a
+            w2 = re.sub(r"qubit\[\d+\]|qubits \d+", "", want) if isinstance(want, str) else want
+            same = a2 == w2
+        elif isinstance(a, (str, tuple)) or (isinstance(a, list) and a and isinstance(a[0], bool)):
+            same = a == want
+        else:
+            same = ser.struct_diff(a, want, 1e-12) is None
+        if not same:
+            ctx.oracle_fail("cost", case, "result on the big register differs from the compressed run", None)
+
+
+def check_wide(ctx, case, rep):
+    """one pass on a circuit touching many distinct qubits; returns True when the cost is out of budget (the run stops
+    widening then). rep: the repetition number within the width (recorded: only the first is compared gate by gate)"""
+    W, N, specs, steps = case["width"], case["N"], case["specs"], case["steps"]
+    ctx.seen(case, True)
+    ctx.bump(f"wide_{W}")
+    case = {**case, "rep": rep}
+    big = gen.build_circuit(N, 1, specs)
+    got, gerr, dt, sizes = timed_run(big, steps, N)
+    if gerr in ("timeout", "memory") or dt > TIME_BUDGET:
+        ctx.oracle_fail("cost", case, f"time {dt:.1f}s on a circuit touching {W} qubits of {N} ({gerr})", None)
+        return True
+    if sizes and max(sizes) > 2:
+        ctx.oracle_fail("cost", case, f"a matrix on {max(sizes)} qubits was built; every gate has at most 2 operands", None)
+        return True
+    # a single decompose / replace step acts gate by gate: the result is the concatenation of the results on
+    # one-statement circuits
+    if len(steps) == 1 and steps[0][0] in ("decompose", "replace") and gerr is None and rep == 0 and W <= 40:
+        want = []
+        werr = None
+        for sp in specs:
+            one = gen.build_circuit(N, 1, [sp])
+            try:
+                want += run_steps(one, steps, N)
+            except Exception as e:  # noqa: BLE001
+                werr = implrun.errkind(e)
+                break
+        strip = lambda xs: [[x[0]] + list(x[2:]) if isinstance(x, list) and x and x[0] in ("gate", "measure", "reset") else x for x in xs]  # noqa: E731
+        if werr is None and ser.struct_diff(strip(got), strip(want), 1e-12) is not None:
+            ctx.oracle_fail("cost", case, "a wide circuit is not rewritten gate by gate", None)
+    elif gerr is not None and not (len(steps) == 1 and steps[0][0] in ("decompose", "replace")):
+        ctx.oracle_fail("cost", case, f"pass raised {gerr} on a wide circuit", None)
+    return False
+
+
+def big_register_item(specs, idx, p):
+    """implementation side of the model correspondence on a 100 000 qubit register"""
+    N = 100000
+    big = gen.build_circuit(N, 1, relabel_specs(specs, {i: idx[i] for i in range(len(idx))}))
+    pre = ser.ser_stmts(big.ir.statements)
+    err, post = implrun.run_impl(big, p)
+    return (p, N, pre, err, post, specs, idx)
+
+
+def check_big_register(ctx, item, mr):
+    p, N, pre, err, post, specs, idx = item
+    mg, r = mr
+    merr, mpost = implrun.model_outcome(p, r)
+    ctx.seen({"model_big": specs, "pass": p})
+    if (err is None) != (merr is None) or (mpost is not None and ser.struct_diff(post, mpost, 3e-7)):
+        ctx.disagree("model_big_register", {"specs": specs, "pass": p, "idx": idx},
+                     "implementation and model differ on a 100 000 qubit register", mg)
+
+
 def run(ctx):
     rng = ctx.rng
     ctx.rule("every pipeline of C05 (8 decomposers, replace rules, merge, map, CNOT->merge->McKay) plus gate equality, writer, "
@@ -136,7 +268,6 @@ def run(ctx):
         k = rng.randint(2, 4)
         specs = gen.rand_circuit_spec(rng, k, 1, rng.randint(3, 10), max_ctrl=2, allow_mat=True, wide_angles=False)
         specs = [s for s in specs if s[0] != "measure_z"]
-        widest = max([len(gen.spec_qubits(s)) for s in specs if gen.is_gate_spec(s)] + [1])
         for N in (rng.sample(sizes, 1) if ctx.quick else sizes):
             mode = rng.choice(["lowest", "highest", "random"])
             if mode == "lowest":
@@ -145,68 +276,10 @@ def run(ctx):
                 idx = list(range(N - k, N))
             else:
                 idx = sorted(rng.sample(range(N), k))
-            m = {i: idx[i] for i in range(k)}
-            inv = {v: kk for kk, v in m.items()}
-            big_specs = relabel_specs(specs, m)
             for steps in (pipelines(k) if not ctx.quick else rng.sample(pipelines(k), 4)):
-                case = {"k": k, "N": N, "mode": mode, "specs": specs, "steps": steps}
                 n += 1
-                ctx.seen(case, widest >= 2)
-                ctx.bump(f"N_{N}")
-                small = gen.build_circuit(k, 1, specs)
-                big = gen.build_circuit(N, 1, big_specs)
-                try:
-                    want = run_steps(small, steps, k)
-                    werr = None
-                except Exception as e:  # noqa: BLE001
-                    want, werr = None, implrun.errkind(e)
-                t0 = time.perf_counter()
-                try:
-                    with SizeRecorder() as rec, implrun.time_limit(int(TIME_BUDGET) + 20):
-                        got = run_steps(big, steps, N)
-                    gerr = None
-                except implrun.Timeout:
-                    got, gerr = None, "timeout"
-                except MemoryError:
-                    got, gerr = None, "memory"
-                except Exception as e:  # noqa: BLE001
-                    got, gerr = None, implrun.errkind(e)
-                dt = time.perf_counter() - t0
-                peak = 0
-                if rng.random() < ctx.pick(0.15, 0.3):        # memory: a second run under tracemalloc (slows execution, so not timed)
-                    big2 = gen.build_circuit(N, 1, big_specs)
-                    tracemalloc.start()
-                    try:
-                        with implrun.time_limit(300):
-                            run_steps(big2, steps, N)
-                    except Exception:  # noqa: BLE001
-                        pass
-                    _, peak = tracemalloc.get_traced_memory()
-                    tracemalloc.stop()
-                    ctx.bump("memory_measured")
-                if gerr in ("timeout", "memory") or dt > TIME_BUDGET or peak > MEM_BUDGET:
-                    ctx.oracle_fail("cost", case, f"time {dt:.1f}s / peak memory {peak/1e6:.0f} MB on a register of {N} qubits ({gerr})", None)
-                    continue
-                if rec.sizes and max(rec.sizes) > max(widest, 2) + (0 if steps[0][0] != "eq" else widest):
-                    ctx.oracle_fail("cost", case, f"a matrix on {max(rec.sizes)} qubits was built; the widest gate has {widest} operands", None)
-                    continue
-                if gerr != werr:
-                    ctx.oracle_fail("cost", case, f"big register: {gerr}, small register: {werr}", None)
-                    continue
-                if gerr is None:
-                    a = compress_result(got, inv)
-                    if steps[0][0] in ("write", "v1", "parse"):
-                        import re
-
-                        a2 = re.sub(r"qubit\[\d+\]|qubits \d+", "", a) if isinstance(a, str) else a
-                        w2 = re.sub(r"qubit\[\d+\]|qubits \d+", "", want) if isinstance(want, str) else want
-                        same = a2 == w2
-                    elif isinstance(a, (str, tuple)) or (isinstance(a, list) and a and isinstance(a[0], bool)):
-                        same = a == want
-                    else:
-                        same = ser.struct_diff(a, want, 1e-12) is None
-                    if not same:
-                        ctx.oracle_fail("cost", case, "result on the big register differs from the compressed run", None)
+                check_register(ctx, {"k": k, "N": N, "mode": mode, "specs": specs, "steps": steps}, idx,
+                               rng.random() < ctx.pick(0.15, 0.3))
     ctx.suite("registers", cases=n, sizes=sizes)
     # wide circuits: many DISTINCT qubits touched by one pass (each gate still has at most two operands). Widths are
     # tried in increasing order and the escalation stops at the first width whose cost is out of budget, so that a
@@ -229,70 +302,48 @@ def run(ctx):
             for steps in [[["decompose", d]] for d in (implrun.DEC_NAMES if not ctx.quick else rng.sample(implrun.DEC_NAMES, 3) + ["mckay", "cnot"])] + \
                     [[["merge"]], [["replace", "CNOT", "cnot_to_hczh"]], [["replace", "CZ", "cz_to_hcnoth"]],
                      [["decompose", "cnot"], ["merge"], ["decompose", "mckay"]], [["map", "reverse"]]]:
-                case = {"kind": "wide", "width": W, "N": N, "specs": specs, "steps": steps}
                 n_w += 1
-                ctx.seen(case, True)
-                ctx.bump(f"wide_{W}")
-                big = gen.build_circuit(N, 1, specs)
-                t0 = time.perf_counter()
-                try:
-                    with SizeRecorder() as rec, implrun.time_limit(int(TIME_BUDGET) + 20):
-                        got = run_steps(big, steps, N)
-                    gerr = None
-                except implrun.Timeout:
-                    got, gerr = None, "timeout"
-                except MemoryError:
-                    got, gerr = None, "memory"
-                except Exception as e:  # noqa: BLE001
-                    got, gerr = None, implrun.errkind(e)
-                dt = time.perf_counter() - t0
-                if gerr in ("timeout", "memory") or dt > TIME_BUDGET:
-                    ctx.oracle_fail("cost", case, f"time {dt:.1f}s on a circuit touching {W} qubits of {N} ({gerr})", None)
-                    stop = True
-                    continue
-                if rec.sizes and max(rec.sizes) > 2:
-                    ctx.oracle_fail("cost", case, f"a matrix on {max(rec.sizes)} qubits was built; every gate has at most 2 operands", None)
-                    stop = True
-                    continue
-                # a single decompose / replace step acts gate by gate: the result is the concatenation of the results on
-                # one-statement circuits
-                if len(steps) == 1 and steps[0][0] in ("decompose", "replace") and gerr is None and rep == 0 and W <= 40:
-                    want = []
-                    werr = None
-                    for sp in specs:
-                        one = gen.build_circuit(N, 1, [sp])
-                        try:
-                            want += run_steps(one, steps, N)
-                        except Exception as e:  # noqa: BLE001
-                            werr = implrun.errkind(e)
-                            break
-                    strip = lambda xs: [[x[0]] + list(x[2:]) if isinstance(x, list) and x and x[0] in ("gate", "measure", "reset") else x for x in xs]  # noqa: E731
-                    if werr is None and ser.struct_diff(strip(got), strip(want), 1e-12) is not None:
-                        ctx.oracle_fail("cost", case, "a wide circuit is not rewritten gate by gate", None)
-                elif gerr is not None and not (len(steps) == 1 and steps[0][0] in ("decompose", "replace")):
-                    ctx.oracle_fail("cost", case, f"pass raised {gerr} on a wide circuit", None)
+                stop = check_wide(ctx, {"kind": "wide", "width": W, "N": N, "specs": specs, "steps": steps}, rep) or stop
     ctx.suite("wide_circuits", cases=n_w, widths=widths)
     # correspondence: model on the big register (indices as binary integers) = impl, for one pass each
     items = []
     for _ in range(ctx.pick(12, 80)):
         k = rng.randint(2, 3)
         specs = gen.rand_circuit_spec(rng, k, 1, rng.randint(2, 6), max_ctrl=1, allow_mat=True, wide_angles=False)
-        N = 100000
-        idx = sorted(rng.sample(range(N), k))
-        big = gen.build_circuit(N, 1, relabel_specs(specs, {i: idx[i] for i in range(k)}))
+        idx = sorted(rng.sample(range(100000), k))
         p = rng.choice([["decompose", rng.choice(implrun.DEC_NAMES)], ["replace", "CNOT", "cnot_to_hczh"]])
-        pre = ser.ser_stmts(big.ir.statements)
-        err, post = implrun.run_impl(big, p)
-        items.append((p, N, pre, err, post, specs))
-    mres = model.call_many([implrun.model_request(p, N, pre) for p, N, pre, _, _, _ in items])
-    for (p, N, pre, err, post, specs), (mg, r) in zip(items, mres):
-        merr, mpost = implrun.model_outcome(p, r)
-        ctx.seen({"model_big": specs, "pass": p})
-        if (err is None) != (merr is None) or (mpost is not None and ser.struct_diff(post, mpost, 3e-7)):
-            ctx.disagree("model_big_register", {"specs": specs, "pass": p}, "implementation and model differ on a 100 000 qubit register", mg)
+        items.append(big_register_item(specs, idx, p))
+    mres = model.call_many([implrun.model_request(p, N, pre) for p, N, pre, _, _, _, _ in items])
+    for item, mr in zip(items, mres):
+        check_big_register(ctx, item, mr)
     ctx.suite("model_big_register", cases=len(items))
     ctx.sample({"example": {"k": 3, "N": 100000, "mode": "random", "steps": [["decompose", "cnot"], ["merge"], ["decompose", "mckay"]]}})
 
 
+def replay_register(ctx, case):
+    if "idx" not in case and case["mode"] == "random":
+        return {"fails": False, "not_rerun": True, "note": "record without the operand indices that were drawn on the big register"}
+    idx = case.get("idx") or (list(range(case["k"])) if case["mode"] == "lowest" else list(range(case["N"] - case["k"], case["N"])))
+    pub = {k: case[k] for k in ("k", "N", "mode", "specs", "steps")}
+    check_register(ctx, pub, idx, True)      # memory is sampled in a run, always measured in a replay
+    return None
+
+
 def replay(ctx, payload):
-    return {"case": payload.get("case"), "fails": payload.get("kind") == "oracle"}
+    from harness import framework
+
+    suite, case = framework.replay_target(payload)
+    if case is None:
+        return framework.replay_nothing(payload)
+    if case.get("kind") == "wide":
+        check_wide(ctx, {k: v for k, v in case.items() if k != "rep"}, case.get("rep", 0))
+    elif "pass" in case:
+        if "idx" not in case:
+            return framework.replay_nothing(payload, "record without the operand indices that were drawn on the big register")
+        item = big_register_item(case["specs"], case["idx"], case["pass"])
+        check_big_register(ctx, item, model.call_many([implrun.model_request(item[0], item[1], item[2])])[0])
+    else:
+        out = replay_register(ctx, case)
+        if out is not None:
+            return out
+    return framework.replay_result(ctx)
